@@ -14,7 +14,12 @@ use std::future::Future;
 use std::marker::PhantomData;
 use std::pin::Pin;
 use std::task::{Context, Poll};
+#[cfg(not(excsn_fibre_verif))]
 use std::time::{Duration, Instant};
+#[cfg(excsn_fibre_verif)]
+use std::time::Duration;
+#[cfg(excsn_fibre_verif)]
+use fibre_verif_rt::time::Instant;
 
 use crate::internal::sync::{thread, Arc, AtomicBool, Ordering};
 
